@@ -48,22 +48,22 @@
      * C11_vd_sample_covariance       VDCMA::createSample: y = (I + a vn vn^T) z has |y|^2 = |z|^2 + (v.z)^2, x = m + sigma D*y.
      over Q / over every arithmetic, closed under the global context (C11DirectModel.v: the objective is an ORACLE, every random draw an
        explicit argument; proofs in C11SimplexProofs.v, C11SimplexBestProofs.v, C11CemProofs.v, C11RunProofs.v)
-     * C11_simplex_reports_objective  SimplexDownhill as coded (init, sort, reflection 2x0-w / expansion 3x0-2w / contraction (x0+w)/2 / reduction
-                                      (b+v)/2 with the coded comparisons, m_best tracking): after init and every number of steps the reported
-                                      value IS the oracle at the reported point and every vertex carries its oracle value — PROVIDED some
-                                      initial vertex has a value below the literal 1e100 that init() stores in m_best.value;
-     * C11_simplex_literal_witness    ... and WITHOUT that proviso it is false: if no objective value is below the literal, solution() reports
-                                      (literal, the point the object held before init) for ever — the one place of the class where a VALUE
-                                      rather than a comparison of objective values is used (observed on the real class: NM probe, see below);
+     * C11_simplex_reports_objective  SimplexDownhill as coded (init as repaired by d2acfe00, sort, reflection 2x0-w / expansion 3x0-2w /
+                                      contraction (x0+w)/2 / reduction (b+v)/2 with the coded comparisons, m_best tracking): after init and
+                                      every number of steps the reported value IS the oracle at the reported point and every vertex carries
+                                      its oracle value, for every oracle (no hypothesis);
+     * C11_simplex_literal_witness    REGRESSION WITNESS about the init BEFORE d2acfe00 (old_sd_init): it compared vertex 0 too with the literal
+                                      1e100 stored in m_best.value, so with no objective value below the literal solution() reported (literal,
+                                      stale point) for ever (found by the NM probe; now a violation under key nm:value:all-values>=1e100);
      * C11_simplex_best_never_worse / _best_monotone / _minval_is_min / C11_simplex_reported_never_worse
                                       the best vertex value (the value of the first vertex after the sort = the least vertex value) never
                                       increases from step to step resp. along a run, for every oracle and every state with >= 2 vertices;
                                       the reported value never increases;
      * C11_simplex_reported_is_best_vertex   the reported solution is the FIRST vertex of the sorted simplex (a vertex, with the least vertex
-                                      value) after init and every number of steps (dimension >= 1, same proviso on the literal);
-     * C11_simplex_rank_invariant / _rescaling   two oracles that order every pair of points identically (and compare identically with the
-                                      literal) visit exactly the same simplices and report the same point, for every start and number of
-                                      steps; in particular phi o f for strictly increasing phi.  No other use of values exists in step();
+                                      value) after init and every number of steps (dimension >= 1);
+     * C11_simplex_rank_invariant / _rescaling   two oracles that order every pair of points identically visit exactly the same simplices and
+                                      report the same point, for every start and number of steps; in particular phi o f for strictly
+                                      increasing phi.  Every decision of init() and step() is a comparison of objective values;
      * C11_cem_reports_objective / C11_cem_step_throws_iff   CrossEntropyMethod::step as coded (sampling z*sqrt(var)+mean with the draws as
                                       arguments, ElitistSelection, counter, updateStrategyParameters, m_best = parents[0]): reported value =
                                       oracle (= unpenalised fitness) at the reported point, which is the best-ranked sample of the step;
@@ -450,22 +450,22 @@ Qed.
 Close Scope R_scope.
 Open Scope Q_scope.
 
-(* (a) the reported value is the objective at the reported point, and every vertex carries its objective value — PROVIDED some
-   initial vertex has a value below the literal [big] (= 1e100 in SimplexDownhill::init); see C11_simplex_literal_witness *)
+(* (a) the reported value is the objective at the reported point, and every vertex carries its objective value, after init (as
+   repaired by d2acfe00: vertex 0 is taken unconditionally) and every number of steps, for every oracle *)
 Theorem C11_simplex_reports_objective :
-  forall sq ex pw (f : list Q -> Q) (big : Q) (p0 start : list Q) (n : nat),
-  (exists j, (j <= length start)%nat /\ f (sd_vertex (QO sq ex pw) start j) < big) ->
-  let st := sd_run (QO sq ex pw) f n (sd_init (QO sq ex pw) f big p0 start) in
+  forall sq ex pw (f : list Q -> Q) (start : list Q) (n : nat),
+  let st := sd_run (QO sq ex pw) f n (sd_init (QO sq ex pw) f start) in
   fst (sd_best st) = f (snd (sd_best st)) /\ Forall (fun v => fst v = f (snd v)) (sd_simplex st).
 Proof. exact sd_reports_objective_lemma. Qed.
 Print Assumptions C11_simplex_reports_objective.
 
-(* the place where a VALUE (not a comparison of objective values) is used: if no objective value is below the literal, solution()
-   keeps reporting (literal, the point the object held before init) after every number of steps *)
+(* REGRESSION WITNESS about the init BEFORE the repair ([old_sd_init]: every vertex, also vertex 0, was compared with the literal 1e100
+   [big] stored in m_best.value — the one place where a VALUE rather than a comparison of objective values was used): if no objective
+   value is below the literal, solution() kept reporting (literal, the point the object held before init) after every number of steps *)
 Theorem C11_simplex_literal_witness :
   forall sq ex pw (f : list Q -> Q) (big : Q) (p0 start : list Q) (n : nat),
   (forall x, big <= f x) ->
-  sd_best (sd_run (QO sq ex pw) f n (sd_init (QO sq ex pw) f big p0 start)) = (big, p0).
+  sd_best (sd_run (QO sq ex pw) f n (old_sd_init (QO sq ex pw) f big p0 start)) = (big, p0).
 Proof. exact sd_literal_reported_lemma. Qed.
 Print Assumptions C11_simplex_literal_witness.
 
@@ -495,59 +495,58 @@ Theorem C11_simplex_reported_never_worse :
 Proof. exact sd_reported_never_worse. Qed.
 Print Assumptions C11_simplex_reported_never_worse.
 
-(* (c) RANK INVARIANCE: two oracles that order every pair of points identically (and compare identically with the literal of init)
-   visit exactly the same simplices and report the same point, for every start point and every number of steps *)
+(* (c) RANK INVARIANCE: two oracles that order every pair of points identically visit exactly the same simplices and report the same
+   point, for every start point and every number of steps (every decision of init and step is a comparison of objective values) *)
 Theorem C11_simplex_rank_invariant :
-  forall sq ex pw (f g : list Q -> Q) (big : Q) (p0 start : list Q) (n : nat),
-  (forall x y, f x < f y <-> g x < g y) -> (forall x, f x < big <-> g x < big) ->
-  map snd (sd_simplex (sd_run (QO sq ex pw) f n (sd_init (QO sq ex pw) f big p0 start))) =
-  map snd (sd_simplex (sd_run (QO sq ex pw) g n (sd_init (QO sq ex pw) g big p0 start))) /\
-  snd (sd_best (sd_run (QO sq ex pw) f n (sd_init (QO sq ex pw) f big p0 start))) =
-  snd (sd_best (sd_run (QO sq ex pw) g n (sd_init (QO sq ex pw) g big p0 start))).
+  forall sq ex pw (f g : list Q -> Q) (start : list Q) (n : nat),
+  (forall x y, f x < f y <-> g x < g y) ->
+  map snd (sd_simplex (sd_run (QO sq ex pw) f n (sd_init (QO sq ex pw) f start))) =
+  map snd (sd_simplex (sd_run (QO sq ex pw) g n (sd_init (QO sq ex pw) g start))) /\
+  snd (sd_best (sd_run (QO sq ex pw) f n (sd_init (QO sq ex pw) f start))) =
+  snd (sd_best (sd_run (QO sq ex pw) g n (sd_init (QO sq ex pw) g start))).
 Proof. exact sd_rank_invariant_lemma. Qed.
 Print Assumptions C11_simplex_rank_invariant.
 
 Theorem C11_simplex_rank_invariant_rescaling :
-  forall sq ex pw (phi : Q -> Q) (f : list Q -> Q) (big : Q) (p0 start : list Q) (n : nat),
-  (forall a b, a < b -> phi a < phi b) -> (forall a b, a == b -> phi a == phi b) -> (forall x, f x < big <-> phi (f x) < big) ->
+  forall sq ex pw (phi : Q -> Q) (f : list Q -> Q) (start : list Q) (n : nat),
+  (forall a b, a < b -> phi a < phi b) -> (forall a b, a == b -> phi a == phi b) ->
   let g := fun x => phi (f x) in
-  map snd (sd_simplex (sd_run (QO sq ex pw) f n (sd_init (QO sq ex pw) f big p0 start))) =
-  map snd (sd_simplex (sd_run (QO sq ex pw) g n (sd_init (QO sq ex pw) g big p0 start))) /\
-  snd (sd_best (sd_run (QO sq ex pw) f n (sd_init (QO sq ex pw) f big p0 start))) =
-  snd (sd_best (sd_run (QO sq ex pw) g n (sd_init (QO sq ex pw) g big p0 start))).
+  map snd (sd_simplex (sd_run (QO sq ex pw) f n (sd_init (QO sq ex pw) f start))) =
+  map snd (sd_simplex (sd_run (QO sq ex pw) g n (sd_init (QO sq ex pw) g start))) /\
+  snd (sd_best (sd_run (QO sq ex pw) f n (sd_init (QO sq ex pw) f start))) =
+  snd (sd_best (sd_run (QO sq ex pw) g n (sd_init (QO sq ex pw) g start))).
 Proof. exact sd_rank_invariant_rescaling. Qed.
 Print Assumptions C11_simplex_rank_invariant_rescaling.
 
 (* the reported solution IS the first vertex of the sorted simplex (stable sort: the earliest vertex with the least value): it is a
-   vertex and its value is the least vertex value — in dimension >= 1, under the proviso of C11_simplex_reports_objective *)
+   vertex and its value is the least vertex value — in dimension >= 1 *)
 Theorem C11_simplex_reported_is_best_vertex :
-  forall sq ex pw (f : list Q -> Q) (big : Q) (p0 start : list Q) (n : nat),
-  (1 <= length start)%nat -> (exists j, (j <= length start)%nat /\ f (sd_vertex (QO sq ex pw) start j) < big) ->
-  let st := sd_run (QO sq ex pw) f n (sd_init (QO sq ex pw) f big p0 start) in
+  forall sq ex pw (f : list Q -> Q) (start : list Q) (n : nat),
+  (1 <= length start)%nat ->
+  let st := sd_run (QO sq ex pw) f n (sd_init (QO sq ex pw) f start) in
   sd_best st = hd (sd_dflt (QO sq ex pw)) (isort (QO sq ex pw) (sd_simplex st)) /\ In (sd_best st) (sd_simplex st) /\
   fst (sd_best st) = sd_minval sq ex pw (sd_simplex st) /\ Forall (fun v => fst (sd_best st) <= fst v) (sd_simplex st).
 Proof. exact sd_reported_is_best_vertex. Qed.
 Print Assumptions C11_simplex_reported_is_best_vertex.
 
-(* ---- the hypotheses are satisfiable: the sphere in dimension 2 from (0,0), literal 1000; and the witness on f = 2000 *)
+(* ---- the hypotheses are satisfiable: the sphere in dimension 2 from (0,0); the old init with literal 1000 on f = 2000; and on the
+   same f the repaired init reports the objective value *)
 Definition sphereQ (x : list Q) : Q := normsqr (QO idq idq pw0) x.
-
-Definition sd_st0 : sd_state Q := sd_init (QO idq idq pw0) sphereQ 1000 [] [0; 0].
 Definition sd_start0 : list Q := [0; 0].
+Definition sd_st0 : sd_state Q := sd_init (QO idq idq pw0) sphereQ sd_start0.
 
 Example C11_simplex_example :
-  (exists j, (j <= length sd_start0)%nat /\ sphereQ (sd_vertex (QO idq idq pw0) sd_start0 j) < 1000) /\
-  (2 <= length (sd_simplex sd_st0))%nat /\
+  (1 <= length sd_start0)%nat /\ (2 <= length (sd_simplex sd_st0))%nat /\
   (forall x y, sphereQ x < sphereQ y <-> 4 * sphereQ x < 4 * sphereQ y) /\
-  Qeq_bool (fst (sd_best (sd_run (QO idq idq pw0) sphereQ 5 (sd_init (QO idq idq pw0) sphereQ 1000 [] [0; 0])))) (98165 # 4194304) = true.
+  Qeq_bool (fst (sd_best (sd_run (QO idq idq pw0) sphereQ 5 sd_st0))) (98165 # 4194304) = true.
 Proof.
-  split; [exists 0%nat; split; [cbn; lia|vm_compute; reflexivity]|].
-  split; [vm_compute; lia|]. split; [intros; split; intro; Lqa.lra|vm_compute; reflexivity].
+  split; [cbn; lia|]. split; [vm_compute; lia|]. split; [intros; split; intro; Lqa.lra|vm_compute; reflexivity].
 Qed.
 
 Example C11_simplex_literal_example :
-  sd_best (sd_run (QO idq idq pw0) (fun _ => 2000) 3 (sd_init (QO idq idq pw0) (fun _ => 2000) 1000 [7] [0; 0])) = (1000, [7]).
-Proof. apply C11_simplex_literal_witness. intro x. Lqa.lra. Qed.
+  sd_best (sd_run (QO idq idq pw0) (fun _ => 2000) 3 (old_sd_init (QO idq idq pw0) (fun _ => 2000) 1000 [7] [0; 0])) = (1000, [7]) /\
+  fst (sd_best (sd_run (QO idq idq pw0) (fun _ => 2000) 3 (sd_init (QO idq idq pw0) (fun _ => 2000) [0; 0]))) = 2000.
+Proof. split; [apply C11_simplex_literal_witness; intro x; Lqa.lra|apply C11_simplex_reports_objective]. Qed.
 
 (* ================================================================ CrossEntropyMethod (C11DirectModel.cem_step / cem_run, over Q) *)
 (* the reported value is the oracle (= unpenalised fitness of PenalizingEvaluator: objective at the closest feasible point) at the
